@@ -205,5 +205,17 @@ pub fn c04(ctx: &CheckCtx) -> i32 {
         v
     });
     report.absorb(res, &|b| render_world_case(b, &cfg));
+    // dedicated probe for the listed finding: a committed minimal case, so that the KNOWN-FINDING line does not depend
+    // on whether this seed's search happens to reach the construct
+    let probe_path = std::path::Path::new(crate::runner::VERIF_ROOT).join("corpus/C04/seed-ge-dynamic-hint.json");
+    if let Ok(seed_case) = crate::runner::read_replay(&probe_path) {
+        let reproduces = matches!(
+            c04_case(&seed_case.choices, &mut Stats::default(), false, &cfg, false),
+            Verdict::Fail { sig, .. } if sig.contains("c04:dynamic-hint-of->=-with-tag-is-an-upper-bound")
+        );
+        if !report.stats.known_hits.contains_key("KF-C04-dynamic-ge-hint") || !reproduces {
+            report.probe("KF-C04-dynamic-ge-hint", reproduces);
+        }
+    }
     report.finish()
 }
